@@ -88,7 +88,7 @@ theorem arrs_pos {h : Heap} (hok : HOk h) : 0 < h.arrs.length := by
 theorem HOk_alloc {h h2 : Heap} (hok : HOk h) (hn : h2.nodes = h.nodes) (hlen : h.arrs.length ≤ h2.arrs.length)
     (frame : ∀ b, b < h.arrs.length → cellsA h2.arrs b = cellsA h.arrs b)
     (n' : Node) (ks' : List Nat) (hs : Slice h2.arrs n'.arr n'.len ks')
-    (ha : n'.arr = 0 ∨ h.arrs.length ≤ n'.arr) (har : n'.arr < h2.arrs.length) :
+    (ha : ∀ (j : Nat) (nj : Node), h.nodes[j]? = some nj → nj.arr = n'.arr → n'.arr = 0) (har : n'.arr < h2.arrs.length) :
     HOk (allocNode h2 n').1 ∧
     labs (allocNode h2 n').1 = labs h ++ [⟨n'.key, n'.dye, n'.data, n'.terminal, ks'⟩] ∧
     (allocNode h2 n').2 = h.nodes.length := by
@@ -133,10 +133,7 @@ theorem HOk_alloc {h h2 : Heap} (hok : HOk h) (hn : h2.nodes = h.nodes) (hlen : 
         · rw [e] at hj; simpa using hj.symm
         · rw [List.getElem?_eq_none (by simp; omega)] at hj; cases hj
       subst e
-      have := (hok.node i ni hi).1
-      rcases ha with a0 | a1
-      · right; omega
-      · omega
+      right; rw [he]; exact ha i ni hi he
     · rename_i h1 h2'
       have e : ni = n' := by
         have : i - h.nodes.length = 0 ∨ i - h.nodes.length > 0 := by omega
@@ -144,10 +141,7 @@ theorem HOk_alloc {h h2 : Heap} (hok : HOk h) (hn : h2.nodes = h.nodes) (hlen : 
         · rw [e] at hi; simpa using hi.symm
         · rw [List.getElem?_eq_none (by simp; omega)] at hi; cases hi
       subst e
-      have := (hok.node j nj hj).1
-      rcases ha with a0 | a1
-      · right; omega
-      · omega
+      right; exact ha j nj hj he.symm
     · rename_i h1 h2'
       left
       have : i - h.nodes.length = 0 := by
@@ -502,7 +496,7 @@ theorem C_leaf {h : Heap} (hok : HOk h) (k : Key) (d : Nat) (data : Option Data)
     labs (allocNode h (leaf k d data)).1 = labs h ++ [lleaf k d data] ∧
     (allocNode h (leaf k d data)).2 = (labs h).length := by
   have := HOk_alloc hok rfl (Nat.le_refl _) (fun _ _ => rfl) (leaf k d data) []
-    ⟨by simp [leaf], rfl⟩ (Or.inl rfl) (arrs_pos hok)
+    ⟨by simp [leaf], rfl⟩ (fun _ _ _ _ => rfl) (arrs_pos hok)
   rw [labs_length]
   exact this
 
@@ -518,9 +512,12 @@ theorem C_clone {h : Heap} (hok : HOk h) {id : Nat} {n : Node} (hn : h.nodes[id]
   obtain ⟨c1, c2, c3, c4, c5, c6⟩ := copySlice_spec (arrs_pos hok) (hok.slice hn)
   have := HOk_alloc hok c1 c2 c6
     { t with arr := (copySlice h n.arr n.len).2.1, len := (copySlice h n.arr n.len).2.2 } _ c3
-    (by rcases c4 with ⟨x, _⟩ | x
-        · exact Or.inl x
-        · exact Or.inr x) c5
+    (by intro j nj hj he
+        rcases c4 with ⟨x, _⟩ | x
+        · exact x
+        · have := (hok.node j nj hj).1
+          have he' : nj.arr = (copySlice h n.arr n.len).2.1 := he
+          omega) c5
   rw [labs_length]
   exact this
 
@@ -614,5 +611,102 @@ theorem C_setRec {h : Heap} (hok : HOk h) {m : Nat} {cn : Node} (hm : h.nodes[m]
   HOk_update hok hm rfl (Nat.le_refl _) { t with arr := cn.arr, len := cn.len } _
     (show Slice h.arrs cn.arr cn.len _ from hok.slice hm) (Or.inl rfl)
     (hok.node m cn hm).1 (fun _ _ _ => rfl)
+
+
+theorem C_two {h : Heap} (hok : HOk h) {m : Nat} {cn : Node} (hm : h.nodes[m]? = some cn)
+    {sub childSub : Key} {node childNode : Nat} {tk : List Nat} (ht : two sub childSub node childNode = some tk) :
+    ∃ h2 a, twoKids h sub childSub node childNode = .ok (h2, a, 2) ∧ ∀ t : Node,
+      HOk (setNode h2 m { t with arr := a, len := 2 }) ∧
+      labs (setNode h2 m { t with arr := a, len := 2 }) = (labs h).set m ⟨t.key, t.dye, t.data, t.terminal, tk⟩ := by
+  obtain ⟨h2, a, e, g1, g2, g3, g4, g5, g6⟩ := twoKids_spec (cellsA_zero hok) (arrs_pos hok) ht
+  refine ⟨h2, a, e, fun t => ?_⟩
+  exact HOk_update hok hm g1 g2 { t with arr := a, len := 2 } _ g3 (Or.inr g4) g5 (fun b hb _ => g6 b hb)
+
+theorem goAppend_nodes (h : Heap) (ns : List Node) (a len x : Nat) :
+    goAppend { h with nodes := ns } a len x =
+      ({ (goAppend h a len x).1 with nodes := ns }, (goAppend h a len x).2) := by
+  unfold goAppend
+  by_cases hc : len < ((h.arrs[a]?).getD []).length
+  · simp [hc, setCell, setCells, cellsOf]
+  · simp [hc, allocArr, cellsOf]
+
+theorem twoKids_nodes {h h' : Heap} (ns : List Node) {sub childSub : Key} {x y a l : Nat}
+    (e : twoKids h sub childSub x y = .ok (h', a, l)) :
+    twoKids { h with nodes := ns } sub childSub x y = .ok ({ h' with nodes := ns }, a, l) := by
+  unfold twoKids at e ⊢
+  split at e
+  · rename_i s0 _ c0 _
+    simp only at e ⊢
+    generalize (if s0 < c0 then (x, y) else (y, x)) = xy at e ⊢
+    obtain ⟨p, q⟩ := xy
+    simp only at e ⊢
+    rw [goAppend_nodes h ns 0 0 p]
+    generalize goAppend h 0 0 p = r at e ⊢
+    obtain ⟨h1, a1, l1⟩ := r
+    simp only at e ⊢
+    rw [goAppend_nodes h1 ns a1 l1 q]
+    generalize goAppend h1 a1 l1 q = r2 at e ⊢
+    obtain ⟨h2, a2, l2⟩ := r2
+    simp only [Res.ok.injEq, Prod.mk.injEq] at e ⊢
+    obtain ⟨rfl, rfl, rfl⟩ := e
+    exact ⟨rfl, rfl, rfl⟩
+  · cases e
+
+/-- the split case of `insert`: the old children slice of `c` moves to a new node, `c` gets a fresh slice -/
+theorem C_move {h : Heap} (hok : HOk h) {c : Nat} {ch : Node} (hc : h.nodes[c]? = some ch)
+    {sub childSub : Key} {tk : List Nat} (n1 : Node) (hn1 : n1.arr = ch.arr ∧ n1.len = ch.len)
+    (k : Key) (data : Option Data) {x y : Nat}
+    (ht : two sub childSub x y = some tk) :
+    ∃ h3 a, twoKids (allocNode (allocNode h n1).1 (leaf k 0 data)).1 sub childSub x y
+        = .ok (h3, a, 2) ∧ ∀ t : Node,
+      HOk (setNode h3 c { t with arr := a, len := 2 }) ∧
+      labs (setNode h3 c { t with arr := a, len := 2 }) =
+        (labs h ++ [⟨n1.key, n1.dye, n1.data, n1.terminal, kidsD h.arrs ch⟩, lleaf k 0 data]).set c
+          ⟨t.key, t.dye, t.data, t.terminal, tk⟩ := by
+  obtain ⟨ha, a, e, g1, g2, g3, g4, g5, g6⟩ := twoKids_spec (cellsA_zero hok) (arrs_pos hok) ht
+  have e' := twoKids_nodes (h.nodes ++ [n1] ++ [leaf k 0 data]) e
+  have hclt : c < h.nodes.length := by
+    by_cases x : c < h.nodes.length
+    · exact x
+    · rw [List.getElem?_eq_none (by omega)] at hc; cases hc
+  refine ⟨_, a, e', fun t => ?_⟩
+  -- the same heap, built in an order in which every step preserves `HOk`
+  obtain ⟨u1, u2⟩ := HOk_update hok hc g1 g2 { t with arr := a, len := 2 } _ g3 (Or.inr g4) g5 (fun b hb _ => g6 b hb)
+  let hb := setNode ha c { t with arr := a, len := 2 }
+  have hbarr : hb.arrs = ha.arrs := rfl
+  have hsl : Slice hb.arrs n1.arr n1.len (kidsD h.arrs ch) := by
+    rw [hn1.1, hn1.2]
+    have := hok.slice hc
+    unfold Slice at *
+    rw [hbarr, g6 _ (hok.node c ch hc).1]; exact this
+  have hchr := (hok.node c ch hc).1
+  obtain ⟨v1, v2, _⟩ := HOk_alloc (h := hb) (h2 := hb) u1 rfl (Nat.le_refl _) (fun _ _ => rfl) n1 _ hsl
+    (by
+      intro j nj hj he
+      have hj' : (ha.nodes.set c { t with arr := a, len := 2 })[j]? = some nj := hj
+      rw [g1, List.getElem?_set] at hj'
+      split at hj'
+      · simp only [hclt, if_true, Option.some.injEq] at hj'
+        rw [← hj', hn1.1] at he
+        have : a = ch.arr := he
+        omega
+      · rw [hn1.1] at he ⊢
+        rename_i hne
+        rcases hok.own j c nj ch hj' hc he with x | x
+        · exact absurd x.symm hne
+        · rw [← he]; exact x)
+    (by rw [hn1.1, hbarr]; omega)
+  obtain ⟨w1, w2, _⟩ := C_leaf v1 k 0 data
+  have heq : setNode ({ ha with nodes := h.nodes ++ [n1] ++ [leaf k 0 data] }) c { t with arr := a, len := 2 }
+      = (allocNode (allocNode hb n1).1 (leaf k 0 data)).1 := by
+    show ({ nodes := (h.nodes ++ [n1] ++ [leaf k 0 data]).set c _, arrs := ha.arrs } : Heap) =
+      { nodes := (ha.nodes.set c _ ++ [n1]) ++ [leaf k 0 data], arrs := ha.arrs }
+    congr 1
+    rw [g1, List.append_assoc, List.set_append_left _ _ hclt, List.append_assoc]
+  rw [heq]
+  refine ⟨w1, ?_⟩
+  rw [w2, v2, u2, List.append_assoc]
+  rw [List.set_append_left _ _ (by rw [labs_length]; exact hclt)]
+  rfl
 
 end LemoProofs.CowHeapL
